@@ -38,6 +38,9 @@ func (s *verifMemStore) Initialize(configuration util.Configuration, prefix stri
 }
 func (s *verifMemStore) InsertEntry(ctx context.Context, e *Entry) error {
 	s.ops = append(s.ops, "insert "+string(e.FullPath))
+	if len(s.entries) >= VerifRunaway {
+		panic("verif: runaway insertion of entries")
+	}
 	s.entries[string(e.FullPath)] = verifCloneEntry(e)
 	return nil
 }
